@@ -27,6 +27,50 @@ func replayOpenAPI(eng *Engine) string {
 	return runKitReplay(eng, replayOpenAPISrc, "zz_govc_openapi_test.go", "TestGovcOpenAPIReplay", "OpenAPI export of documents on the real code (package kit):")
 }
 
+//go:embed replay_corpus_test.go.tmpl
+var replayCorpusSrc string
+
+// corpusChecks: BOUNDED oracles on the real builder (package kit) over the built-in documents and the documents of
+// /repo/testdata; each states a clause of the property for every document of the corpus (see the template). Never counted
+// as proved.
+func (e *Engine) corpusChecks(id, tier string) []fdResult {
+	goals := map[string][2]string{
+		"C01": {"kit.NewJapi/bounded/corpus-no-panic#1", "every document of the corpus, every prefix of the documents up to 800 bytes (thorough: 6000 bytes, and every single-byte deletion and 13 substitutions per byte of the documents up to 500 bytes) builds to a catalog or an error - no panic, no hang"},
+		"C05": {"kit.JApi.ToJson/bounded/corpus-cross-references#1", "the serialised catalog of every accepted corpus document satisfies the statement of C05 literally: key == id == fields, tags <-> interactions exactly once under the right protocol, usedUserTypes/usedUserEnums defined, pathVariables == {parameters}, response codes 100-599 with a body, JSIGHT 0.3"},
+		"C06": {"kit.NewJApiFromFile/bounded/corpus-built-twice#1", "every corpus document (accepted or rejected) built twice in one process gives the same bytes or the same error (message, file, index, line, column, trace); the source bytes are not written"},
+		"C07": {"kit.NewJapi/bounded/corpus-error-locations#1", "every error of the rejected corpus documents names a file, an index not beyond it, the line/column the dependency computes for that index and the text of that line as quote"},
+		"C08": {"kit.NewJApiFromFile/bounded/corpus-blank-and-comment-lines#1", "blank lines, '#' comments and '###' block comments inserted between the top-level blocks of the accepted corpus documents leave the catalog unchanged"},
+		"C09": {"kit.NewJapi/bounded/corpus-include-split#1", "moving 1-3 consecutive top-level blocks of an accepted corpus document into an INCLUDEd file gives the same catalog bytes"},
+		"C10": {"kit.NewJApiFromFile/bounded/corpus-paste-expansion#1", "replacing every PASTE of a corpus document by the re-indented body of its MACRO and deleting the MACRO blocks gives the same catalog bytes; undefined and pasted cyclic macros are errors"},
+		"C19": {"kit.NewJApiFromFile/bounded/corpus-banned-kinds#1", "for every accepted corpus document and each of the 31 directive kinds: banning a kind that occurs is rejected with the not-allowed error on an occurrence; banning a kind that does not occur gives the same catalog bytes"},
+	}
+	g, ok := goals[id]
+	if !ok {
+		return nil
+	}
+	os.Setenv("GOVC_ORACLE", id)
+	os.Unsetenv("GOVC_DEEP")
+	if tier == "thorough" {
+		os.Setenv("GOVC_DEEP", "1")
+	}
+	out := runKitReplay(e, replayCorpusSrc, "zz_govc_corpus_test.go", "TestGovcCorpusOracle", "corpus oracle "+id+" on the real builder (package kit):")
+	res := []fdResult{{Name: g[0], Props: []string{id}, Goal: "BOUNDED (built-in documents and /repo/testdata): " + g[1] + " (bounded sample, not a proof)",
+		OK: strings.Contains(out, "DONE tried=") && !strings.Contains(out, "REPRODUCED input"), Detail: out}}
+	if id == "C05" {
+		// documents without any directive are a recorded class (known finding D28): an obligation of its own
+		var nd []string
+		for _, l := range strings.Split(out, "\n") {
+			if strings.HasPrefix(l, "NODIRECTIVE ") {
+				nd = append(nd, l)
+			}
+		}
+		res = append(res, fdResult{Name: "kit.JApi.ToJson/bounded/no-directive-document#1", Props: []string{id},
+			Goal: "BOUNDED (3 documents without any directive): an accepted document has the JSIGHT version 0.3 in its catalog (bounded sample, not a proof)",
+			OK:   strings.Contains(out, "DONE tried=") && len(nd) == 0, Detail: strings.Join(nd, "\n") + "\n"})
+	}
+	return res
+}
+
 //go:embed replay_descend_test.go.tmpl
 var replayDescEndSrc string
 
@@ -149,7 +193,7 @@ func runKitReplay(eng *Engine, src, file, test, title string) string {
 	ovb, _ := json.Marshal(ov)
 	ovFile := filepath.Join(tmp, "overlay.json")
 	_ = os.WriteFile(ovFile, ovb, 0o644)
-	cmd := exec.Command("go", "test", "-overlay", ovFile, "-vet=off", "-count=1", "-timeout", "300s", "-v", "-run", test, "./kit")
+	cmd := exec.Command("go", "test", "-overlay", ovFile, "-vet=off", "-count=1", "-timeout", "900s", "-v", "-run", test, "./kit")
 	cmd.Dir = eng.repo
 	cmd.Env = append(os.Environ(), "GOFLAGS=-mod=mod", "GOPROXY=off", "GOSUMDB=off", "GOTOOLCHAIN=local",
 		"GOVC_REPO_TESTDATA="+filepath.Join(eng.repo, "testdata"))
